@@ -123,7 +123,7 @@ Section Norm.
   | wn_text_last pres cont s : s <> [] -> collapse cfg pres s = s -> wnf pres cont [NS cont s]
   | wn_text_cons pres cont s x l : s <> [] -> collapse cfg pres s = s -> nontext x -> wnf pres cont (x :: l) ->
       wnf pres cont (NS cont s :: x :: l)
-  | wn_special pres cont c s l : special_ok c -> collapse cfg pres s = s -> wnf pres cont l -> wnf pres cont (NS c s :: l)
+  | wn_special pres cont c s l : special_ok c -> wnf pres cont l -> wnf pres cont (NS c s :: l)
   | wn_tag pres cont q a kids l : attrs_ok a ->
       wnf (pres || memS q (c_pw cfg)) (match assocS q (c_containers cfg) with Some c => c | None => cont end) kids ->
       wnf pres cont l -> wnf pres cont (NT q a kids :: l).
@@ -152,7 +152,7 @@ Section Norm.
   Proof. intros H. cbn [norm_kids]. now rewrite H. Qed.
   Lemma nk_special pres cont P c s r c' s' : (output_kind c =? 0)%N = false -> read_special c s = Some (c', s') ->
     norm_kids enc f cfg pres cont P (NStr c s :: r) =
-    flush_text cfg pres cont P ++ NS c' (collapse cfg pres s') :: norm_kids enc f cfg pres cont (trailing c) r.
+    flush_text cfg pres cont P ++ NS c' s' :: norm_kids enc f cfg pres cont (trailing c) r.
   Proof. intros H1 H2. cbn [norm_kids]. now rewrite H1, H2. Qed.
   Lemma nk_none pres cont P c s r : (output_kind c =? 0)%N = false -> read_special c s = None ->
     norm_kids enc f cfg pres cont P (NStr c s :: r) = norm_kids enc f cfg pres cont (P ++ trailing c) r.
@@ -187,7 +187,7 @@ Section Norm.
         norm_kids enc f cfg pres cont P (map (inj cfg) l) = NS cont (collapse cfg pres (P ++ s)) :: r) /\
     norm_kids enc f cfg pres cont [] (map (inj cfg) l) = l.
   Proof.
-    induction 1 as [pres cont|pres cont s Hs Hc|pres cont s x l Hs Hc Hx Hl IH|pres cont c s l [Hk Hr] Hc Hl IH
+    induction 1 as [pres cont|pres cont s Hs Hc|pres cont s x l Hs Hc Hx Hl IH|pres cont c s l [Hk Hr] Hl IH
                     |pres cont q a kids l Ha Hkids IHk Hl IH]; intros Hst Hcont0.
     - split; [intros _ P; cbn; now rewrite app_nil_r|]. split; [intros s r H; discriminate H|reflexivity].
     - assert (G2 : forall P, norm_kids enc f cfg pres cont P (map (inj cfg) [NS cont s]) = [NS cont (collapse cfg pres (P ++ s))]).
@@ -215,7 +215,7 @@ Section Norm.
         rewrite (IH2 [10%N] l2 eq_refl [nl_]). cbn [app]. unfold nl_. now rewrite collapse_two_newlines. }
       assert (E : forall P, norm_kids enc f cfg pres cont P (map (inj cfg) (NS c s :: l)) = flush_text cfg pres cont P ++ NS c s :: l).
       { intros P. change (map (inj cfg) (NS c s :: l)) with (NStr c s :: map (inj cfg) l).
-        rewrite (nk_special pres cont P c s _ c s Hk (Hr s)), Hc, Etail. reflexivity. }
+        rewrite (nk_special pres cont P c s _ c s Hk (Hr s)), Etail. reflexivity. }
       split; [intros _; exact E|]. split; [|now rewrite E].
       intros s0 r [= -> _ _]. unfold k0 in Hcont0. congruence.
     - cbn [stable_list] in Hst. apply andb_prop in Hst as [Hst Hst2]. apply andb_prop in Hst as [_ Hsn].
@@ -273,7 +273,7 @@ Section Norm.
         * destruct (read_special c s) as [[c' s']|] eqn:Er.
           -- rewrite (nk_special pres cont pend c s r c' s' Ek Er).
              pose proof (read_special_cases c s c' s' Er) as Hok.
-             apply wnf_flush_cons; [exact (proj1 Hok)|]. apply wn_special; [exact Hok|apply collapse_idem|apply IH].
+             apply wnf_flush_cons; [exact (proj1 Hok)|]. apply wn_special; [exact Hok|apply IH].
           -- rewrite (nk_none pres cont pend c s r Ek Er). apply IH.
   Qed.
 
